@@ -339,6 +339,8 @@ func userMeta(class string) []string {
 	switch class {
 	case "user":
 		return []string{"user.a", "1", "user.b", "2"}
+	case "dup":
+		return []string{"user.a", "1", vgirpc.MetaStreamState, "ZHVwbGljYXRl", vgirpc.MetaCallState, "ZHVwbGljYXRl"}
 	case "collide":
 		return []string{"vgi_rpc.stream_state", "not-a-token", "user.a", "1", "vgi_rpc.cancelled", "no"}
 	}
@@ -499,6 +501,9 @@ func (s *stepper) Step(i int, st replay.Step) (replay.Obs, error) {
 		}
 		// user metadata before, between or after the framework keys
 		pos := s.rng.Intn(3)
+		if replay.Str(a, "meta") == "dup" {
+			pos = 2
+		}
 		tok := []string{vgirpc.MetaStreamState, s.cursor}
 		ctk := []string{vgirpc.MetaCallState, s.ctok}
 		switch pos {
